@@ -386,7 +386,7 @@ class Verifier:
             res.reason = s.reason_unknown()
             # diagnosis: which conjunct of the goal is the one that is not discharged
             parts = _conjuncts(o.goal)
-            if len(parts) > 1:
+            if len(parts) > 1 and not os.environ.get("PYVC_NO_DIAG"):
                 failing = []
                 for idx, (hyp, cj) in enumerate(parts):
                     s3 = z3.Solver()
